@@ -126,9 +126,16 @@ Definition pm2_ringbuf_extent : N := 8192.
 Definition pm2_code_tree_extent : N := 65.
 Definition pm2_offset_tree_extent : N := 17.
 Definition pm2_TREE_NODE_LEAF : N := 128.
+Definition pm2_CODE_TREE_ELEMENTS : N := 65.
+Definition pm2_OFFSET_TREE_ELEMENTS : N := 17.
+Definition pm2_tree_element_size : N := 1.
+Definition pm2_SIZE_MAX : N := 18446744073709551615.
+Definition pma_history_extent : N := 256.
 Definition pm2_max_read : N := 256.
 Definition pm2_block_size : N := 8192.
 Definition pm2_extra_size : N := 8840.
+Definition pm2_code_lengths_extent : N := 31.
+Definition pm2_offset_lengths_extent : N := 8.
 Definition pm1_RING_BUFFER_SIZE : N := 16384.
 Definition pm1_MAX_BYTE_BLOCK_LEN : N := 216.
 Definition pm1_MAX_COPY_BLOCK_LEN : N := 244.
@@ -138,6 +145,90 @@ Definition pm1_byte_decode_tree_row : N := 5.
 Definition pm1_max_read : N := 460.
 Definition pm1_block_size : N := 2048.
 Definition pm1_extra_size : N := 16960.
+Definition hdr_COMMON_HEADER_LEN : N := 22.
+Definition hdr_LEVEL_0_MIN_HEADER_LEN : N := 22.
+Definition hdr_LEVEL_1_MIN_HEADER_LEN : N := 25.
+Definition hdr_LEVEL_2_HEADER_LEN : N := 26.
+Definition hdr_LEVEL_3_HEADER_LEN : N := 32.
+Definition hdr_LEVEL_3_MAX_HEADER_LEN : N := 1048576.
+Definition hdr_LEVEL_0_UNIX_EXTENDED_LEN : N := 12.
+Definition hdr_LEVEL_0_OS9_EXTENDED_LEN : N := 22.
+Definition OS_TYPE_UNKNOWN : N := 0.
+Definition OS_TYPE_MSDOS : N := 77.
+Definition OS_TYPE_WIN95 : N := 119.
+Definition OS_TYPE_WINNT : N := 87.
+Definition OS_TYPE_UNIX : N := 85.
+Definition OS_TYPE_OS2 : N := 50.
+Definition OS_TYPE_MACOS : N := 109.
+Definition OS_TYPE_AMIGA : N := 65.
+Definition OS_TYPE_ATARI : N := 97.
+Definition OS_TYPE_JAVA : N := 74.
+Definition OS_TYPE_CPM : N := 67.
+Definition OS_TYPE_FLEX : N := 70.
+Definition OS_TYPE_RUNSER : N := 82.
+Definition OS_TYPE_TOWNSOS : N := 84.
+Definition OS_TYPE_OS9 : N := 57.
+Definition OS_TYPE_OS9_68K : N := 75.
+Definition OS_TYPE_OS386 : N := 51.
+Definition OS_TYPE_HUMAN68K : N := 72.
+Definition OS_TYPE_LHARK : N := 32.
+Definition FILE_UNIX_PERMS : N := 1.
+Definition FILE_UNIX_UID_GID : N := 2.
+Definition FILE_COMMON_CRC : N := 4.
+Definition FILE_WINDOWS_TIMESTAMPS : N := 8.
+Definition FILE_OS9_PERMS : N := 16.
+Definition hdr_compress_method_extent : N := 6.
+Definition sizeof_LHAFileHeader : N := 160.
+Definition MAX_SFX_HEADER_LEN : N := 262144.
+Definition LEADIN_BUFFER_LEN : N := 24.
+Definition leadin_extent : N := 24.
+Definition sizeof_LHAInputStream : N := 56.
+Definition sizeof_LHABasicReader : N := 32.
+Definition sizeof_LHAReader : N := 64.
+Definition sizeof_LHADecoder : N := 72.
+Definition decoders_count : N := 14.
+Definition decoder_max_read_0 : N := 1024.
+Definition decoder_block_size_0 : N := 2048.
+Definition decoder_extra_size_0 : N := 16.
+Definition decoder_max_read_1 : N := 144.
+Definition decoder_block_size_1 : N := 4096.
+Definition decoder_extra_size_1 : N := 4120.
+Definition decoder_max_read_2 : N := 17.
+Definition decoder_block_size_2 : N := 2048.
+Definition decoder_extra_size_2 : N := 2080.
+Definition decoder_max_read_3 : N := 1024.
+Definition decoder_block_size_3 : N := 2048.
+Definition decoder_extra_size_3 : N := 16.
+Definition decoder_max_read_4 : N := 4096.
+Definition decoder_block_size_4 : N := 4096.
+Definition decoder_extra_size_4 : N := 12608.
+Definition decoder_max_read_5 : N := 16384.
+Definition decoder_block_size_5 : N := 4096.
+Definition decoder_extra_size_5 : N := 18640.
+Definition decoder_max_read_6 : N := 16384.
+Definition decoder_block_size_6 : N := 8192.
+Definition decoder_extra_size_6 : N := 18640.
+Definition decoder_max_read_7 : N := 65536.
+Definition decoder_block_size_7 : N := 32768.
+Definition decoder_extra_size_7 : N := 67856.
+Definition decoder_max_read_8 : N := 131072.
+Definition decoder_block_size_8 : N := 65536.
+Definition decoder_extra_size_8 : N := 133392.
+Definition decoder_max_read_9 : N := 1048576.
+Definition decoder_block_size_9 : N := 524288.
+Definition decoder_extra_size_9 : N := 1050896.
+Definition decoder_max_read_10 : N := 65536.
+Definition decoder_block_size_10 : N := 32768.
+Definition decoder_extra_size_10 : N := 67104.
+Definition decoder_max_read_11 : N := 1024.
+Definition decoder_block_size_11 : N := 2048.
+Definition decoder_extra_size_11 : N := 16.
+Definition decoder_max_read_12 : N := 460.
+Definition decoder_block_size_12 : N := 2048.
+Definition decoder_extra_size_12 : N := 16960.
+Definition decoder_max_read_13 : N := 256.
+Definition decoder_block_size_13 : N := 8192.
+Definition decoder_extra_size_13 : N := 8840.
 
 Definition crc16_table : list N :=
   [0; 49345; 49537; 320; 49921; 960; 640; 49729; 50689; 1728; 1920; 51009;
@@ -208,3 +299,63 @@ Definition pm1_byte_decode_trees : list N :=
    0; 161; 188; 0; 0; 0; 171; 0; 0; 0; 0; 0;
    0; 0; 0; 0].
 Definition pm1_byte_decode_trees_len : N := 160.
+Definition COMPRESS_TYPE_DIR : list N :=
+  [45; 108; 104; 100; 45].
+Definition COMPRESS_TYPE_DIR_len : N := 5.
+Definition ext_header_nums : list N :=
+  [0; 1; 2; 80; 81; 83; 82; 84; 65; 204].
+Definition ext_header_nums_len : N := 10.
+Definition ext_header_min_lens : list N :=
+  [2; 1; 1; 2; 4; 1; 1; 4; 24; 12].
+Definition ext_header_min_lens_len : N := 10.
+Definition ext_header_decoder_ids : list N :=
+  [0; 1; 2; 3; 4; 5; 6; 7; 8; 9].
+Definition ext_header_decoder_ids_len : N := 10.
+Definition AMIGA_LHASFX_ID : list N :=
+  [76; 104; 65; 83; 70; 88; 32; 86; 49; 46; 50; 44].
+Definition AMIGA_LHASFX_ID_len : N := 12.
+Definition DECLHA_SFX_ID : list N :=
+  [76; 72; 65; 45; 83; 70; 88].
+Definition DECLHA_SFX_ID_len : N := 7.
+Definition decoder_name_0 : list N :=
+  [45; 108; 122; 52; 45].
+Definition decoder_name_0_len : N := 5.
+Definition decoder_name_1 : list N :=
+  [45; 108; 122; 53; 45].
+Definition decoder_name_1_len : N := 5.
+Definition decoder_name_2 : list N :=
+  [45; 108; 122; 115; 45].
+Definition decoder_name_2_len : N := 5.
+Definition decoder_name_3 : list N :=
+  [45; 108; 104; 48; 45].
+Definition decoder_name_3_len : N := 5.
+Definition decoder_name_4 : list N :=
+  [45; 108; 104; 49; 45].
+Definition decoder_name_4_len : N := 5.
+Definition decoder_name_5 : list N :=
+  [45; 108; 104; 52; 45].
+Definition decoder_name_5_len : N := 5.
+Definition decoder_name_6 : list N :=
+  [45; 108; 104; 53; 45].
+Definition decoder_name_6_len : N := 5.
+Definition decoder_name_7 : list N :=
+  [45; 108; 104; 54; 45].
+Definition decoder_name_7_len : N := 5.
+Definition decoder_name_8 : list N :=
+  [45; 108; 104; 55; 45].
+Definition decoder_name_8_len : N := 5.
+Definition decoder_name_9 : list N :=
+  [45; 108; 104; 120; 45].
+Definition decoder_name_9_len : N := 5.
+Definition decoder_name_10 : list N :=
+  [45; 108; 107; 55; 45].
+Definition decoder_name_10_len : N := 5.
+Definition decoder_name_11 : list N :=
+  [45; 112; 109; 48; 45].
+Definition decoder_name_11_len : N := 5.
+Definition decoder_name_12 : list N :=
+  [45; 112; 109; 49; 45].
+Definition decoder_name_12_len : N := 5.
+Definition decoder_name_13 : list N :=
+  [45; 112; 109; 50; 45].
+Definition decoder_name_13_len : N := 5.
